@@ -63,9 +63,9 @@ func Doesc(s string, i int) (byte, int) {
 	case '\\', '"', '\'':
 		return c, i + 1
 	case 'x':
-		if i+2 < len(s) {
-			dig1 := ascii.Digit(s[i+1], 16)
-			dig2 := ascii.Digit(s[i+2], 16)
+		if i+3 < len(s) {
+			dig1 := ascii.Digit(s[i+2], 16)
+			dig2 := ascii.Digit(s[i+3], 16)
 			if dig1 != -1 && dig2 != -1 {
 				return byte(16*dig1 + dig2), i + 3
 			}
